@@ -27,7 +27,7 @@ func init() {
 }
 
 var c06Tokens = []string{"vol00+01", "vol01+02", "x", "anything goes", "part-2", "VOL001+002", "a.b.c", "recovery", "[1]", "a*b", "q?", "{z}", "vol[0-9]"}
-var c06Bases = []string{"set", "my set", "s[1]", "a*b", "q?x", "x", "archive.v1", "[ab]c"}
+var c06Bases = []string{"set", "my set", "s[1]", "a*b", "q?x", "x", "archive.v1", "[ab]c", "back\\slash", "trailing\\", "b\\[1]", "{a,b}", "~tilde", "-dash"}
 
 func hasGlobMeta(s string) bool { return strings.ContainsAny(s, "*?[\\") }
 
@@ -38,9 +38,9 @@ func foreignLayout(r *Run, real bool) {
 	S := []int{4, 8, 16, 64, 100}[t.Draw(5, "S")]
 	var files []ref.Protected
 	n := 0
-	stems := []string{"f%d.dat", "sub/f%d", "sub/deep/f%d.bin", "with space %d", "d%d/x", "rel..%d/data.bin", "wait...%d.txt", "a..b%d", "win\\f%d"}
+	stems := []string{"f%d.dat", "sub/f%d", "sub/deep/f%d.bin", "with space %d", "d%d/x", "rel..%d/data.bin", "wait...%d.txt", "a..b%d", "win\\f%d", "trail%d ", "dot%d.", "n%d", "abcdefg%d", "abcdefgh%d"}
 	for i := 0; i < nf; i++ {
-		name := fmt.Sprintf(stems[t.Pick([]int{4, 1, 1, 1, 1, 1, 1, 1, 1}, "stem")], i)
+		name := fmt.Sprintf(stems[t.Pick([]int{4, 1, 1, 1, 1, 1, 1, 1, 1, 1, 1, 1, 1, 1}, "stem")], i)
 		if strings.Contains(name, "/") {
 			r.Probe("subdir-data-name")
 		}
